@@ -90,7 +90,8 @@ KwDealOK(e) ==
   /\ e.ok =>
        /\ IsVec(e.r, NCols(e.M)) /\ e.r[1] = e.secret /\ e.dfsecret = e.secret
        /\ SharesAre(e, e.shares, e.r)               \* shares = M * r
-       /\ \A i \in Idx(e) : e.can[i] = Qual(e, i)
+       \* (sets containing a holder without rows are judged once, on the "msp" line)
+       /\ \A i \in Idx(e) : SetOf(e, i) \subseteq LabelSet(e.lab) => e.can[i] = Qual(e, i)
        /\ RecRule(e, e.rec, e.secret)
        /\ AddRule(e, e.add, e.secret)
 
@@ -124,7 +125,8 @@ AdditiveOK(e) ==
 
 \* ---------------------------------------------------------------- ISN (one piece per maximal unqualified set)
 IsnOK(e) ==
-  /\ ~e.ok => EverySingleQualified(e.pol)          \* no non-empty unqualified set: nothing to build the scheme from
+  \* the scheme lives on the parties that occur in some maximal unqualified set; fewer than two: nothing to build
+  /\ ~e.ok => Cardinality(UNION MaximalUnqualified(e.pol)) < 2
   /\ e.ok =>
        LET mus == [j \in 1..Len(e.musc) |-> Range(e.musc[j])] IN
        /\ {mus[j] : j \in 1..Len(mus)} = MaximalUnqualified(e.pol)
@@ -187,8 +189,10 @@ Check(e) ==
     [] e.a = "tassalin" -> TassaLinOK(e)
     [] OTHER -> FALSE
 
-Init == l = 1
-Next == l <= Len(Trace) /\ l' = l + 1
+\* function-shaped: every line is judged on its own, so every line is an initial state
+\* (l = Len(Trace) + 1 marks the end; the checker counts Len(Trace) + 1 distinct states)
+Init == l \in 1..(Len(Trace) + 1)
+Next == UNCHANGED l
 Spec == Init /\ [][Next]_vars
 
 CaseOK == l <= Len(Trace) => Check(Trace[l])
